@@ -92,6 +92,36 @@ func ruleEnumExhaustive(c *Ctx, r *Rule) {
 				if !ok || fd.Body == nil {
 					continue
 				}
+				// the other spelling of such a switch: a chain of `subject == K` tests on the same subject
+				chains := map[string]*sw{}
+				var chainOrder []string
+				ast.Inspect(fd.Body, func(n ast.Node) bool {
+					be, ok := n.(*ast.BinaryExpr)
+					if !ok || be.Op != token.EQL {
+						return true
+					}
+					for _, pair := range [][2]ast.Expr{{be.X, be.Y}, {be.Y, be.X}} {
+						stv, ok1 := p.TypesInfo.Types[pair[0]]
+						ktv, ok2 := p.TypesInfo.Types[pair[1]]
+						if !ok1 || !ok2 || stv.Value != nil || ktv.Value == nil || !types.Identical(stv.Type, e.typ) || !types.Identical(ktv.Type, e.typ) {
+							continue
+						}
+						key := types.ExprString(pair[0])
+						ch := chains[key]
+						if ch == nil {
+							ch = &sw{fn: fd.Name.Name, pos: be.Pos(), cases: map[string]bool{}, eval: evalNames[fd.Name.Name]}
+							chains[key] = ch
+							chainOrder = append(chainOrder, key)
+						}
+						ch.cases[ktv.Value.ExactString()] = true
+					}
+					return true
+				})
+				for _, key := range chainOrder {
+					if ch := chains[key]; len(ch.cases) >= 2 {
+						sws = append(sws, *ch)
+					}
+				}
 				ast.Inspect(fd.Body, func(n ast.Node) bool {
 					ss, ok := n.(*ast.SwitchStmt)
 					if !ok || ss.Tag == nil {
